@@ -1,5 +1,5 @@
 (* RunContainer.v — marshalling of container states and operations for the extracted model. *)
-From Model Require Export Run Container.
+From Model Require Export Run Container AFile Fs.
 Open Scope Z_scope.
 
 Definition entry_of_v (v : V) : entry :=
@@ -88,3 +88,39 @@ Definition run_he_dec (arg : V) : V :=
   | Some (v, rest) => ok (VL [v; VI (zlength rest)])
   | None => fail EValue
   end.
+
+(* histories with the accessors evaluated after every step (C09, C10, C11):
+   [state; ops; types] -> [[outcome; state; [len; nbytes; compactb; [[has ty; get_type ty] ...]; [get_index i ...]]] ...] *)
+Definition acc_of (s : cstate) (tys : list Z) : V :=
+  VL [VI (c_len s); VI (c_nbytes s); vbool (compactb s);
+      VL (map (fun ty => VL [vbool (c_has s ty);
+                             match c_get_type s ty with Some (e, _) => VL [v_of_entry e] | None => VL [] end]) tys);
+      VL (map (fun i => match c_get_index s i with Some e => VL [v_of_entry e] | None => VL [] end)
+              [-1; 0; 1; s_n s - 1; s_n s])].
+
+Fixpoint c_run_acc (s : cstate) (ops : list V) (tys : list Z) : list V :=
+  match ops with
+  | [] => []
+  | op :: r => let '(o, s') := c_step s op in
+               VL [VI (outcome_code o); v_of_state s'; acc_of s' tys] :: c_run_acc s' r tys
+  end.
+
+Definition run_container_acc (arg : V) : V :=
+  ok (VL (c_run_acc (state_of_v (vnth 0 arg)) (vlist (vnth 1 arg)) (zs_of (vnth 2 arg)))).
+
+(* compactb of a parsed file (the C09 statement evaluated on the implementation's own output) *)
+Definition run_compactb (arg : V) : V := ok (vbool (compactb (state_of_v arg))).
+
+(* file-system operations (C17): fs = [[path; bytes] ...]
+   [fs; 1; path; now] new    [fs; 2; src; dst] copy    [fs; 3; path] open *)
+Definition fs_of_v (v : V) : fs := map (fun e => (vint (vnth 0 e), zs_of (vnth 1 e))) (vlist v).
+Definition v_of_fs (f : fs) : V := VL (map (fun pb => VL [VI (fst pb); vints (snd pb)]) f).
+Definition run_fs (arg : V) : V :=
+  let f := fs_of_v (vnth 0 arg) in
+  let k := vint (vnth 1 arg) in
+  if k =? 1 then let '(o, f') := fs_new f (vint (vnth 2 arg)) (vint (vnth 3 arg)) in
+                 ok (VL [VI (outcome_code o); v_of_fs f']) else
+  if k =? 2 then let '(o, f') := fs_copy f (vint (vnth 2 arg)) (vint (vnth 3 arg)) in
+                 ok (VL [VI (outcome_code o); v_of_fs f']) else
+  if k =? 3 then of_result vints (fs_open f (vint (vnth 2 arg))) else
+  fail EOther.
